@@ -257,7 +257,7 @@ func evalView1(prop, repo, verif string, cfg Config, pairs []inlinePair, known [
 }
 
 func searchInlinedView(prop, tier, repo, verif string, cfg Config, f propFn, p *Program, r *Report) *Report {
-	st := &viewSearch{prop: prop, tier: tier, repo: repo, verif: verif, cfg: cfg, f: f, known: r.known,
+	st := &viewSearch{orig: r, prop: prop, tier: tier, repo: repo, verif: verif, cfg: cfg, f: f, known: r.known,
 		seenSig: map[string]bool{failureSignature(r): true}, budget: 96}
 	res, chosen := st.descend(nil, p, r, r.newViolations(), 0)
 	if res == nil {
@@ -268,12 +268,48 @@ func searchInlinedView(prop, tier, repo, verif string, cfg Config, f propFn, p *
 }
 
 type viewSearch struct {
+	orig                    *Report
 	prop, tier, repo, verif string
 	cfg                     Config
 	f                       propFn
 	known                   []KnownFinding
 	seenSig                 map[string]bool
 	budget                  int
+}
+
+// lostObligations: a view may decide an obligation that failed on the program as written, it may not make it
+// disappear.  Every failing obligation of the original report that concerns a construct (not a missing anchor or a
+// vacuity floor — those turn into the obligations the anchor gives rise to) must be present in the view's report,
+// under the same rule and the same wording, and discharged there.  A rule that files an obligation only where it
+// recognises a pattern would otherwise pass on a view in which the pattern is merely no longer recognisable.
+func (st *viewSearch) lostObligations(view *Report) string {
+	for _, o := range st.orig.Obs {
+		if o.Status != "violated" {
+			continue
+		}
+		if strings.Contains(o.How, "kind=unresolved-anchor") || strings.Contains(o.How, "kind=below-floor") {
+			continue
+		}
+		listed := false
+		for _, k := range st.known {
+			if k.Status == "known" && k.Rule == o.Rule && k.Function == o.Func && k.Construct == o.Construct {
+				listed = true
+			}
+		}
+		if listed {
+			continue
+		}
+		found := false
+		for _, v := range view.Obs {
+			if v.Rule == o.Rule && v.Construct == o.Construct && (v.Status == "discharged" || v.Status == "excepted") {
+				found = true
+			}
+		}
+		if !found {
+			return "obligation not re-decided in the view: " + o.Rule + " " + o.Construct
+		}
+	}
+	return ""
 }
 
 // descend: depth-first over sets of expanded pairs.  A step adds one pair; it is taken if fewer obligations fail, or as
@@ -357,6 +393,12 @@ func (st *viewSearch) descend(chosen []inlinePair, curP *Program, curR *Report, 
 			continue // the sub-process and this process disagree: do not trust the view
 		}
 		if results[i] == 0 {
+			if lost := st.lostObligations(nr); lost != "" {
+				if *dumpInline != "" {
+					fmt.Fprintf(os.Stderr, "%*sview rejected: %s\n", depth*2, "", lost)
+				}
+				continue
+			}
 			return nr, next
 		}
 		if res, ch := st.descend(next, np, nr, results[i], depth+1); res != nil {
